@@ -595,6 +595,400 @@ def h_vac_into_key(ctx, p):
     ctx.req('OUT', ok and p.untouched() and p.len_is(0), 'into_key', 'must return the key the entry was created with', p)
 
 
+# ------------------------------------------------------------------------------ iterators (C09, C10)
+ITER, ITERMUT, INTOITER = 'iterators::Iter', 'iterators::IterMut', 'iterators::IntoIter'
+KEYS, VALUES, VALUESMUT = 'keys::Keys', 'values::Values', 'values::ValuesMut'
+INTOKEYS, INTOVALUES = 'keys::IntoKeys', 'values::IntoValues'
+DRAIN = 'drain::Drain'
+SETITER, SETINTOITER, SETDRAIN = 'set::SetIter', 'set::SetIntoIter', 'set::SetDrain'
+
+
+def cursor_of(E, v):
+    """the slice cursor inside an iterator value: (mid, front, back, mut) or None"""
+    c = E.sliceits_in(v) if v is not None else []
+    if len(c) == 1:
+        return c[0][1], c[0][2], c[0][3], c[0][4]
+    return None
+
+
+def map_in(E, v):
+    c = E.byvalue_maps(v) if v is not None else []
+    return c[0] if len(c) == 1 else None
+
+
+def final_self(p):
+    """value of the receiver object at the exit (for &self / &mut self receivers)"""
+    a0 = p.args0[0] if p.args0 else None
+    v = a0
+    d = 0
+    while v is not None and v[0] == 'ref' and d < 4:
+        try:
+            v = p.E.load(p.st, v[2], quiet=True)
+        except Exception:
+            return None
+        d += 1
+    return v
+
+
+def proj_ok(p, item, mid, idx, how):
+    """item is the stated projection of slot idx"""
+    z = p.z
+    if how == 'pair':
+        return item[0] == 'tuple' and len(item[1]) == 2 and slot_ref(item[1][0], z, mid, idx, (0,)) \
+            and slot_ref(item[1][1], z, mid, idx, (1,)) and not item[1][0][1]
+    if how == 'key':
+        return slot_ref(item, z, mid, idx, (0,)) and not item[1]
+    if how == 'value':
+        return slot_ref(item, z, mid, idx, (1,))
+    if how == 'owned-pair':
+        return item[0] == 'tuple' and len(item[1]) == 2 and tag_eq(z, vtag(item[1][0]), stored(mid, idx, 0)) \
+            and tag_eq(z, vtag(item[1][1]), stored(mid, idx, 1))
+    if how == 'owned-key':
+        return tag_eq(z, vtag(item), stored(mid, idx, 0))
+    if how == 'owned-value':
+        return tag_eq(z, vtag(item), stored(mid, idx, 1))
+    return False
+
+
+def h_cursor_next(how):
+    """next() of an iterator that wraps a core slice iterator over slots"""
+    def h(ctx, p):
+        nm = ctx.body.name
+        c0 = cursor_of(p.E, p.self0)
+        c1 = cursor_of(p.E, final_self(p))
+        if c0 is None or c1 is None:
+            ctx.req('OUT', False, nm, 'cannot find the slice cursor inside the iterator', p)
+            return
+        mid, f0, b0, _ = c0
+        _, f1, b1, _ = c1
+        z = p.z
+        owned = how.startswith('owned')
+        reads = [e for e in p.events if e[0] == 'read' and e[1] == mid]
+        writes = [e for e in p.events if e[0] in ('write', 'len', 'store') and e[1] == mid]
+        if is_none(p.val):
+            ctx.classes['none'] += 1
+            ctx.req('OUT', z.entails_le(b0, f0), nm + ':none', 'None may be returned only when no element remains', p)
+            ctx.req('OUT', z.entails_eq(f1, f0) and z.entails_eq(b1, b0) and not reads, nm + ':none',
+                    'returning None must leave the iterator unchanged (so it keeps returning None)', p)
+            return
+        item = some_of(p.val)
+        ctx.classes['some'] += 1
+        ctx.req('OUT', item is not None and proj_ok(p, item, mid, f0, how), nm + ':some',
+                'the item must be the stated projection of the first remaining slot', p)
+        ctx.req('ONCE', z.entails_eq(f1, f0, 1) and z.entails_eq(b1, b0), nm + ':some',
+                'yielding an item must advance the cursor by exactly one element', p)
+        if owned:
+            ok = len(reads) == 1 and z.entails_eq(reads[0][2], f0) and not writes
+            ctx.req('ONCE', ok, nm + ':some', 'a draining iterator must move exactly the yielded element out of its slot', p)
+        else:
+            ctx.req('OUT', not reads and not writes, nm + ':some',
+                    'a borrowing iterator must not move, write or re-count anything', p)
+    return h
+
+
+def h_cursor_count(kind):
+    """size_hint / len / count of a slice-cursor iterator: exactly the number of remaining elements"""
+    def h(ctx, p):
+        nm = ctx.body.name
+        c0 = cursor_of(p.E, p.self0)
+        if c0 is None:
+            ctx.req('HINT', False, nm, 'cannot find the slice cursor inside the iterator', p)
+            return
+        mid, f0, b0, _ = c0
+        z = p.z
+
+        def exact(v):
+            return v[0] == 'slen' and z.entails_eq(v[1], f0) and z.entails_eq(v[2], b0)
+        ctx.classes['hint'] += 1
+        v = p.val
+        if kind == 'size_hint':
+            ok = v[0] == 'tuple' and len(v[1]) == 2 and exact(v[1][0]) and some_of(v[1][1]) is not None \
+                and exact(some_of(v[1][1]))
+        else:
+            ok = exact(v)
+        ctx.req('HINT', ok, nm, 'must report exactly the number of elements not yet yielded', p)
+        ctx.req('OUT', not p.reads and not p.writes and not p.lens, nm, 'must not change anything', p)
+    return h
+
+
+def h_pop_next(how):
+    """next() of a consuming iterator that owns the container and pops its last element"""
+    def h(ctx, p):
+        nm = ctx.body.name
+        mid = map_in(p.E, p.self0)
+        if mid is None:
+            ctx.req('OUT', False, nm, 'cannot find the owned container inside the iterator', p)
+            return
+        p.mid = mid
+        p.ms = p.st.maps[mid]
+        z, ms = p.z, p.ms
+        reads = [e for e in p.events if e[0] == 'read' and e[1] == mid]
+        if is_none(p.val):
+            ctx.classes['none'] += 1
+            ctx.req('OUT', z.entails_eq(ms.len0, 0), nm + ':none', 'None may be returned only when the container is empty', p)
+            ctx.req('OUT', not reads and z.entails_eq(ms.len, ms.len0), nm + ':none', 'returning None must change nothing', p)
+            return
+        ctx.classes['some'] += 1
+        item = some_of(p.val)
+        ok = len(reads) == 1 and z.entails_eq(ms.len0, ms.len, 1) and z.entails_eq(reads[0][2], ms.len)
+        ctx.req('ONCE', ok, nm + ':some', 'must move out exactly the last live element and decrease len by one', p)
+        ctx.req('OUT', item is not None and ok and proj_ok(p, item, mid, reads[0][2], how), nm + ':some',
+                'the item must be the stated projection of the element that was moved out', p)
+        ctx.req('OUT', not ms.contents and not ms.holes and not ms.extras, nm + ':some', 'no other slot may be touched', p)
+    return h
+
+
+def h_pop_count(kind):
+    def h(ctx, p):
+        nm = ctx.body.name
+        mid = map_in(p.E, p.self0)
+        if mid is None:
+            ctx.req('HINT', False, nm, 'cannot find the owned container inside the iterator', p)
+            return
+        z = p.z
+        n = p.st.maps[mid].len0
+
+        def exact(v):
+            return v[0] == 'int' and z.entails_eq(v[1], n)
+        ctx.classes['hint'] += 1
+        v = p.val
+        if kind == 'size_hint':
+            ok = v[0] == 'tuple' and len(v[1]) == 2 and exact(v[1][0]) and some_of(v[1][1]) is not None \
+                and exact(some_of(v[1][1]))
+        else:
+            ok = exact(v)
+        ctx.req('HINT', ok, nm, 'must report exactly the number of elements still held', p)
+    return h
+
+
+def h_make_cursor(kind):
+    """iter()/iter_mut()/keys()/values()/values_mut()/drain()/&-into_iter: the cursor spans exactly [0,len)"""
+    def h(ctx, p):
+        nm = ctx.body.name
+        z, ms = p.z, p.ms
+        c = cursor_of(p.E, p.val)
+        ctx.classes['made'] += 1
+        if c is None or ms is None:
+            ctx.req('ROOTSLICE', False, nm, 'the result does not wrap exactly one slice cursor over the container', p)
+            return
+        mid, f, b, mut = c
+        ctx.req('ROOTSLICE', mid == p.mid and z.entails_eq(f, 0) and z.entails_eq(b, ms.len0), nm,
+                'the iterator must range over exactly the live prefix [0, len) of the container', p)
+        if kind == 'drain':
+            ctx.req('OUT', z.entails_eq(ms.len, 0) and not p.reads and not p.writes, nm,
+                    'drain() must leave the container empty (len == 0) at once, moving nothing itself', p)
+        else:
+            ctx.req('OUT', p.untouched() and p.len_is(0), nm, 'creating a borrowing iterator must change nothing', p)
+    return h
+
+
+def h_make_owner(ctx, p):
+    """into_iter()/into_keys()/into_values(): the result owns the very same container"""
+    nm = ctx.body.name
+    ctx.classes['made'] += 1
+    mid = map_in(p.E, p.val)
+    ms = p.st.maps.get(mid) if mid else None
+    src = map_in(p.E, p.self0)
+    ok = mid is not None and mid == src and not ms.contents and not ms.holes and not ms.extras \
+        and p.z.entails_eq(ms.len, ms.len0)
+    ctx.req('ROOTSLICE', ok, nm, 'the consuming iterator must own the unchanged container', p)
+
+
+def h_iter_clone(ctx, p):
+    nm = 'clone'
+    ctx.classes['made'] += 1
+    c0 = cursor_of(p.E, p.self0)
+    c1 = cursor_of(p.E, p.val)
+    c2 = cursor_of(p.E, final_self(p))
+    z = p.z
+    ok = c0 is not None and c1 is not None and c2 is not None and c1[0] == c0[0] \
+        and z.entails_eq(c1[1], c0[1]) and z.entails_eq(c1[2], c0[2]) \
+        and z.entails_eq(c2[1], c0[1]) and z.entails_eq(c2[2], c0[2])
+    ctx.req('OUT', ok, nm, 'a cloned iterator must continue exactly where its original stands, which stays unchanged', p)
+
+
+# ------------------------------------------------------------------------------ clear / clone of containers
+def h_clear(ctx, p):
+    nm = ctx.body.name
+    z, ms = p.z, p.ms
+    ctx.classes['cleared'] += 1
+    ctx.req('OUT', ms is not None and z.entails_eq(ms.len, 0), nm, 'afterwards the container must be empty', p)
+    # every old element destroyed exactly once: nothing live is left outside len (INV covers the rest)
+    ctx.req('OUT', ms is not None and not ms.extras and slots.empty(z, ms.extra_rng), nm,
+            'every element that was stored must have been destroyed', p)
+
+
+# ------------------------------------------------------------------------------ per-iteration schemas
+def _norm_answer(tag, truth):
+    while isinstance(tag, tuple) and tag and tag[0] == 'not':
+        tag = tag[1]
+        truth = not truth
+    return tag, truth
+
+
+class Iteration:
+    """one complete loop iteration (events between two visits of the loop head)"""
+
+    def __init__(self, E, st, seg):
+        self.E, self.st, self.z, self.seg = E, st, st.zone, seg
+
+    def ev(self, *kinds):
+        return [e for e in self.seg if e[0] in kinds]
+
+    def describe(self):
+        cs = '; '.join('%s: %s' % (m, [(str(i), t) for i, t in ms.contents]) for m, ms in self.st.maps.items() if ms.contents)
+        return 'slot contents changed in this iteration: {%s}; iteration events: %s' % (
+            cs, ' | '.join(str(e) for e in self.seg if e[0] not in ('at', 'slice', 'loop', 'user', 'assume'))[:1500])
+
+
+def it_req(E, props, rule, ok, prim, what, it):
+    E.oblig(rule, bool(ok), prim, what + ' -- ' + it.describe(), 'refuted', sample=prim + ' ok', props=sorted(props))
+    return bool(ok)
+
+
+def retain_iteration(props):
+    """retain: an element is removed iff the user predicate answered false for it"""
+    def hook(E, body, key, st, seg):
+        it = Iteration(E, st, seg)
+        calls = [e for e in it.ev('user') if e[1].endswith('FnMut::call_mut')]
+        if not calls:
+            return
+        nm = body.name
+        E.iter_classes['predicate'] += 1
+        c = calls[-1]
+        it_req(E, props, 'ONCE', len(calls) == 1, nm + ':iteration', 'the predicate must run exactly once per visited element', it)
+        slot = None
+        for t in (c[2][1][1:] if len(c[2]) > 1 and isinstance(c[2][1], tuple) else ()):
+            if isinstance(t, tuple) and len(t) == 4 and t[0] == 'slot':
+                slot = t
+                break
+        it_req(E, props, 'OUT', slot is not None, nm + ':iteration', 'the predicate must be given a live element of the container', it)
+        if slot is None:
+            return
+        mid, idx = slot[1], slot[2]
+        ans = [(_norm_answer(e[1], e[2])) for e in it.ev('assume')
+               if isinstance(_norm_answer(e[1], e[2])[0], tuple) and _norm_answer(e[1], e[2])[0][:2] == ('u', c[1])]
+        reads = [e for e in it.ev('read') if e[1] == mid]
+        lens = [e for e in it.ev('len') if e[1] == mid]
+        writes = [e for e in it.ev('write') if e[1] == mid]
+        if not ans:
+            it_req(E, props, 'POL', False, nm + ':iteration', 'the fate of the element does not depend on the predicate', it)
+            return
+        keep = ans[-1][1]
+        if keep:
+            E.iter_classes['kept'] += 1
+            it_req(E, props, 'POL', not reads and not lens and not writes, nm + ':kept',
+                   'an element for which the predicate answered true must stay untouched', it)
+        else:
+            E.iter_classes['removed'] += 1
+            ok = bool(reads) and st.zone.entails_eq(reads[0][2], idx) and len(lens) == 1
+            it_req(E, props, 'POL', ok, nm + ':removed',
+                   'an element for which the predicate answered false must be moved out and len decreased by one', it)
+            ok2 = (len(reads) == 1 and not writes) or (
+                len(reads) == 2 and len(writes) == 1 and st.zone.entails_eq(writes[0][2], idx)
+                and tag_eq(st.zone, writes[0][3], reads[1][3]))
+            it_req(E, props, 'OUT', ok2, nm + ':removed',
+                   'the hole must be closed by moving the last live element into it (nothing else may move)', it)
+    return hook
+
+
+def bulk_iteration(props, pulled_by, key_of_item):
+    """from_iter / extend / deserialisation: one key-keeping insert per pulled item"""
+    def hook(E, body, key, st, seg):
+        it = Iteration(E, st, seg)
+        pulls = [e for e in seg if pulled_by(e)]
+        if not pulls:
+            return
+        nm = body.name
+        E.iter_classes['item'] += 1
+        it_req(E, props, 'ONCE', len(pulls) == 1, nm + ':iteration', 'the source must be advanced exactly once per iteration', it)
+        hits = it.ev('hit')
+        apps = it.ev('append')
+        it_req(E, props, 'ONCE', len(hits) + len(apps) == 1, nm + ':iteration',
+               'each pulled item must be inserted exactly once (found-and-replaced or appended)', it)
+        if len(hits) + len(apps) != 1:
+            return
+        item = key_of_item(pulls[-1])
+        def val_ok(t):
+            return t == ('tuple',) or (item is not None and E.tag_mentions(t, item))
+        if apps:
+            E.iter_classes['append'] += 1
+            a = apps[0]
+            ms = st.maps[a[1]]
+            it_req(E, props, 'FLOW', item is not None and E.tag_mentions(a[3], item), nm + ':append',
+                   'the appended key must be the key of the item just pulled', it)
+            cs = list(ms.contents)
+            ok = len(cs) == 1 and st.zone.entails_eq(cs[0][0], a[2]) and item is not None \
+                and E.tag_mentions(cs[0][1][0], item) and val_ok(cs[0][1][1])
+            it_req(E, props, 'FLOW', ok and len([e for e in it.ev('len') if e[1] == a[1]]) == 1, nm + ':append',
+                   'the new slot must hold the key and the value of the item just pulled; no other slot may change', it)
+        else:
+            E.iter_classes['hit'] += 1
+            h = hits[0]
+            ms = st.maps[h[1]]
+            it_req(E, props, 'FLOW', item is not None and E.tag_mentions(h[3], item), nm + ':hit',
+                   'the key that was looked up must be the key of the item just pulled', it)
+            cs = list(ms.contents)
+            ok = len(cs) == 1 and st.zone.entails_eq(cs[0][0], h[2]) \
+                and tag_eq(st.zone, cs[0][1][0], stored(h[1], h[2], 0)) and val_ok(cs[0][1][1])
+            it_req(E, props | {'C12'}, 'ROUTE', ok and not [e for e in it.ev('len') if e[1] == h[1]], nm + ':hit',
+                   'for a repeated key the first key object must be kept and the value of the item just pulled stored '
+                   '(last value wins), touching no other slot and consuming no capacity', it)
+    return hook
+
+
+def _pulled_next(e):
+    return (e[0] == 'next' and e[-1] == 'Some') or (e[0] == 'user' and e[1].endswith('::Iterator::next')) \
+        or (e[0] == 'opaque' and e[1].endswith('::Iterator>::next'))
+
+
+def _item_of_next(e):
+    if e[0] == 'next':
+        return ('item', e[1])
+    return ('u' if e[0] == 'user' else 'c', e[1], e[2])
+
+
+def _pulled_cb(e):
+    return e[0] == 'cb-invoke'
+
+
+def _item_of_cb(e):
+    return ('cbarg',)
+
+
+ITER_HOOKS = {
+    (MAP, None, 'retain'): ({'C01'}, retain_iteration, {'predicate', 'kept', 'removed'}),
+    (SET, None, 'retain'): ({'C07'}, retain_iteration, {'predicate', 'kept', 'removed'}),
+    (MAP, 'FromIterator', 'from_iter'): ({'C16'}, lambda pr: bulk_iteration(pr, _pulled_next, _item_of_next), {'item', 'hit', 'append'}),
+    (SET, 'FromIterator', 'from_iter'): ({'C16'}, lambda pr: bulk_iteration(pr, _pulled_next, _item_of_next), {'item', 'hit', 'append'}),
+    (MAP, 'From', 'from'): ({'C16'}, lambda pr: bulk_iteration(pr, _pulled_next, _item_of_next), {'item', 'hit', 'append'}),
+    (SET, 'From', 'from'): ({'C16'}, lambda pr: bulk_iteration(pr, _pulled_next, _item_of_next), {'item', 'hit', 'append'}),
+    (SET, 'Extend', 'extend'): ({'C16', 'C07'}, lambda pr: bulk_iteration(pr, _pulled_cb, _item_of_cb), {'item', 'hit', 'append'}),
+}
+
+
+def iteration_hook_for(E, body):
+    k = root_key(body)
+    h = ITER_HOOKS.get(k)
+    if h is None:
+        return None
+    props, mk, _ = h
+    fn = mk(set(props))
+    return lambda key, st, seg: fn(E, body, key, st, seg)
+
+
+def h_bulk_result(ctx, p):
+    """from_iter / From<[_; N]>: the result is a container created empty inside the call; the source was
+    turned into an iterator exactly once"""
+    nm = ctx.body.name
+    ctx.classes['built'] += 1
+    mid = map_in(p.E, p.val)
+    ms = p.st.maps.get(mid) if mid else None
+    ctx.req('FLOW', ms is not None and ms.len0 is None, nm, 'the result must be a container built from new() inside the call', p)
+    n = len([e for e in p.user if e[1].endswith('IntoIterator::into_iter')])
+    ctx.req('ONCE', n <= 1, nm, 'the source must be turned into an iterator at most once (single forward pass)', p)
+
+
 def _mk(fn, *a):
     return lambda ctx, p: fn(ctx, p, *a)
 
@@ -640,17 +1034,78 @@ def required_classes(key):
         return {'occupied'}
     if key == (VAC, None, 'insert'):
         return {'hit', 'append'}
+    if key[2] == 'next' and key[1] == 'Iterator' and key in HANDLERS:
+        return {'none', 'some'}
+    if key[2] in ('size_hint', 'len', 'count') and key in HANDLERS:
+        return {'hint'}
+    if key in HANDLERS and key[2] in ('iter', 'iter_mut', 'keys', 'values', 'values_mut', 'drain', 'into_iter',
+                                      'into_keys', 'into_values', 'clone'):
+        return {'made'}
+    if key[2] == 'clear':
+        return {'cleared'}
+    if key[2] in ('from_iter', 'from') and key in HANDLERS:
+        return {'built'}
     return set()
 
 
 def props_of_root(body):
-    h = HANDLERS.get(root_key(body))
-    return set(h[0]) if h else set()
+    k = root_key(body)
+    h = HANDLERS.get(k)
+    out = set(h[0]) if h else set()
+    if k in ITER_HOOKS:
+        out |= set(ITER_HOOKS[k][0])
+    return out
 
 
 def anchors(pid):
     """root keys whose schema serves property pid"""
-    return sorted((k for k, (props, _) in HANDLERS.items() if pid in props), key=lambda k: tuple(str(x) for x in k))
+    ks = {k for k, (props, _) in HANDLERS.items() if pid in props} | {k for k, v in ITER_HOOKS.items() if pid in v[0]}
+    return sorted(ks, key=lambda k: tuple(str(x) for x in k))
+
+
+IT = 'Iterator'
+ESI = 'ExactSizeIterator'
+for _path, _how in ((ITER, 'pair'), (ITERMUT, 'pair'), (KEYS, 'key'), (VALUES, 'value'), (VALUESMUT, 'value'),
+                    (SETITER, 'key')):
+    HANDLERS[(_path, IT, 'next')] = ({'C09'}, h_cursor_next(_how))
+    HANDLERS[(_path, IT, 'size_hint')] = ({'C09'}, h_cursor_count('size_hint'))
+    HANDLERS[(_path, ESI, 'len')] = ({'C09'}, h_cursor_count('len'))
+for _path in (ITER, ITERMUT):
+    HANDLERS[(_path, IT, 'count')] = ({'C09'}, h_cursor_count('count'))
+for _path in (ITER, KEYS, VALUES, SETITER):
+    HANDLERS[(_path, 'Clone', 'clone')] = ({'C09'}, h_iter_clone)
+for _path, _how in ((DRAIN, 'owned-pair'), (SETDRAIN, 'owned-key')):
+    HANDLERS[(_path, IT, 'next')] = ({'C10'}, h_cursor_next(_how))
+    HANDLERS[(_path, IT, 'size_hint')] = ({'C10'}, h_cursor_count('size_hint'))
+    HANDLERS[(_path, ESI, 'len')] = ({'C10'}, h_cursor_count('len'))
+for _path, _how in ((INTOITER, 'owned-pair'), (INTOKEYS, 'owned-key'), (INTOVALUES, 'owned-value'),
+                    (SETINTOITER, 'owned-key')):
+    HANDLERS[(_path, IT, 'next')] = ({'C10'}, h_pop_next(_how))
+    HANDLERS[(_path, IT, 'size_hint')] = ({'C10'}, h_pop_count('size_hint'))
+    HANDLERS[(_path, ESI, 'len')] = ({'C10'}, h_pop_count('len'))
+HANDLERS[(INTOITER, IT, 'count')] = ({'C10'}, h_pop_count('count'))
+HANDLERS.update({
+    (MAP, None, 'iter'): ({'C09', 'C05'}, h_make_cursor('iter')),
+    (MAP, None, 'iter_mut'): ({'C09', 'C05'}, h_make_cursor('iter')),
+    (MAP, None, 'keys'): ({'C09'}, h_make_cursor('iter')),
+    (MAP, None, 'values'): ({'C09'}, h_make_cursor('iter')),
+    (MAP, None, 'values_mut'): ({'C09'}, h_make_cursor('iter')),
+    (SET, None, 'iter'): ({'C09', 'C05'}, h_make_cursor('iter')),
+    ('&Map', 'IntoIterator', 'into_iter'): ({'C09'}, h_make_cursor('iter')),
+    ('&set::Set', 'IntoIterator', 'into_iter'): ({'C09'}, h_make_cursor('iter')),
+    (MAP, None, 'drain'): ({'C10', 'C01', 'C05'}, h_make_cursor('drain')),
+    (SET, None, 'drain'): ({'C10', 'C07'}, h_make_cursor('drain')),
+    (MAP, 'IntoIterator', 'into_iter'): ({'C10'}, h_make_owner),
+    (SET, 'IntoIterator', 'into_iter'): ({'C10'}, h_make_owner),
+    (MAP, None, 'into_keys'): ({'C10'}, h_make_owner),
+    (MAP, None, 'into_values'): ({'C10'}, h_make_owner),
+    (MAP, 'FromIterator', 'from_iter'): ({'C16'}, h_bulk_result),
+    (SET, 'FromIterator', 'from_iter'): ({'C16'}, h_bulk_result),
+    (MAP, 'From', 'from'): ({'C16'}, h_bulk_result),
+    (SET, 'From', 'from'): ({'C16'}, h_bulk_result),
+    (MAP, None, 'clear'): ({'C01'}, h_clear),
+    (SET, None, 'clear'): ({'C07'}, h_clear),
+})
 
 
 def check_root(E, body, rr):
@@ -684,6 +1139,7 @@ def check_root(E, body, rr):
         for s, val in rets:
             p = Path(E, body, s, val, first, dict(tags))
             p.self0 = self0
+            p.args0 = rr.args
             p.idx0 = None
             p.variant_fields = {}
             # Entry receivers: the index of the Occupied variant as materialised on this path
@@ -700,5 +1156,13 @@ def check_root(E, body, rr):
         if not rets:
             E.oblig('OUT', False, body.name, 'the root has no normal-return path at all', 'unproven',
                     props=sorted(ctx.props))
+    ih = ITER_HOOKS.get(key)
+    if ih is not None:
+        ic = getattr(E, 'iter_classes', {})
+        digest['iteration_classes'] = dict(ic)
+        for c in sorted(ih[2]):
+            E.oblig('OUT', ic.get(c, 0) > 0, body.name + ':iteration-class-' + c,
+                    'no loop iteration of class "%s" was seen for this root: its per-iteration schema would pass '
+                    'vacuously' % c, 'unproven', props=sorted(ih[0]), sample='%d iterations of class %s' % (ic.get(c, 0), c))
     E.chain = []
     return digest
